@@ -41,7 +41,7 @@ ASSUMPTIONS = [
     "direct ops); after other unexpected errors a glyph is poisoned too; the state after a REJECTED PEN CALL is modelled",
     "copy/insert destinations are fresh glyphs (Glyph(), Layer.newGlyph), as Layer.insertGlyph uses copyDataFromGlyph",
     "lib values are opaque to the model (canonical JSON dump); colours are given in normalised form",
-    "the check targets defcon WITH repo_fixes/C13-decompose-shallow.diff applied",
+    "the check targets defcon with the fixes C13-decompose-shallow and C10-6 (shallow contours reserve their identifiers)",
 ]
 TRUSTED = ["fontTools PointToSegmentPen/SegmentToPointPen/Transform ported by hand into the model (validated by the same runs)",
            "UFO write/read of the scratch fonts goes through defcon's own save + fontTools.ufoLib (valid outlines only)",
@@ -682,7 +682,7 @@ def dump(g, mask_smooth=False):
             [[optnum(a.x), optnum(a.y), optnum(a.angle), opt(a.name), optcolor(a.color), opt(a.identifier)]
              for a in g.guidelines],
             lib_dump(_plain(g.lib)), shallow, [out_ev(e, mask_smooth) for e in evs],
-            Atom("masked") if shallow else [Atom("set")] + sorted(g.identifiers)]
+            [Atom("set")] + sorted(g.identifiers)]
 
 
 def _plain(v):
@@ -738,7 +738,7 @@ def play(pen, evs):
             pen.addComponent(e[1], tuple(to_py(v) for v in e[2]), identifier=e[3])
 
 
-ERRS = ("AssertionError", "AttributeError", "NameError", "IndexError", "PenError", "TypeError", "KeyError")
+ERRS = ("AssertionError", "AttributeError", "DefconError", "IndexError", "PenError", "TypeError", "KeyError")
 
 
 def err_of(e):
@@ -942,11 +942,6 @@ class World(object):
             ctx["result"] = g
             return [ok, dump(g)]
         if k == "pen":
-            if is_shallow(g):
-                # identifiers of shallow-loaded contours are not registered (FIXME in GlyphObjectLoadingPointPen): a pen
-                # drawing into such a glyph can take one of them; later deepening then asserts.  C10's concern; the
-                # oracle does not judge identifier handling / rejections on this glyph any more
-                self.tainted.add(ctx["key"])
             if split_stream([_ce(e) for e in op[4]]) is None:
                 # a path that is begun and never ended leaves its identifiers registered without any object
                 # carrying them - same consequence as a rejected call
